@@ -2,6 +2,24 @@
 import json, os
 V = os.path.dirname(os.path.dirname(os.path.abspath(__file__)))
 CLAIMED = {
+ "C08": dict(
+   text="Proof: the closed form Mrem removes exactly what reaches the target ((Mb-x) = f (Mt-x)); for every bin list, non-BH mass Mo>0 and target 0<=f<1 below the "
+        "fraction formed, the loop ends with BH mass = f * total mass, heaviest first with the cut structure and mean-mass preservation of the standard model, and "
+        "never runs off the array; a target at or above the fraction formed leaves the arrays untouched; strict mode raises, non-strict warns, nothing happens before "
+        "BHs form. Mrem is re-extracted from the source each run (T2). Bit-exact float correspondence on arrays and through the real _evolve with multi-row schedules and "
+        "per-age targets, injected kicks; oracle: target met per row, stars/other remnants untouched, reported retention.",
+   design="8/C08", technique="Coq proof by induction with a loop invariant (real instance) + regenerated formula tie + bit-exact float correspondence + oracle",
+   note="Trusted: Coq kernel; Reals axioms (evidence); harness (stand-in solver, injected kick factors); numpy sums passed as inputs; rounding in the extreme regime "
+        "(almost everything removed) is allowed for explicitly in the oracle (1e-14 max(M)/Mtot)."),
+ "C10": dict(
+   text="Proof over ALL rationals (every float is one): two-decimal formatting is within half a hundredth and keeps the sign bit; for a complete grid every metallicity "
+        "maps to a table that exists and whose value is within half a hundredth of the clamped metallicity. The directory listings of the four families are regenerated "
+        "each run and their completeness (every hundredth between the ends, both zeros, equal zero tables) is decided by the kernel. The table actually opened is observed "
+        "by wrapping numpy.loadtxt and compared with the model on the float's exact rational for thousands of metallicities incl. rounding-adversarial ones; WD / lifetime "
+        "rows and the kick metallicity checked against nearest-value and clamp.",
+   design="8/C10", technique="Coq proof over Q (closed under the global context) + regenerated directory listings (vm_compute) + exact-rational correspondence",
+   note="Trusted: Coq kernel (theorems are axiom-free); CPython's correctly rounded float formatting; harness loadtxt wrapper; translator for listings."),
+
  "C02": dict(
    text="Proof (field level, every configuration / state / age): only the bin containing the turn-off mass loses stars (mto < upper and lower <= mto, via the proved "
         "inverse/monotone lifetime functions), the flux re-appears in the class and bin dictated by the IFMR scaled by the class retention fraction with dMr = m_rem dNr, "
